@@ -164,6 +164,8 @@ def open_symbolic(mods, ranks_events, include_last_profiler_step=False, load=Tru
 
 
 def write_files(ranks_events, outdir):
+    import shutil
+    shutil.rmtree(outdir, ignore_errors=True)
     os.makedirs(outdir, exist_ok=True)
     for r, ev in ranks_events.items():
         with open(os.path.join(outdir, f"rank{r}.json"), "w") as fh:
